@@ -255,8 +255,23 @@ def subpackages(run: Run):
                               detail="types/__init__.py.j2 imports every proto of api.protos; the modules of a sub-package live under <sub>/types/", group="import.subpackages:render"))
 
 
+def flattened_parameter_names(run: Run):
+    """The client method's keyword parameters are the *leaf* names of the flattened fields (field.name), keyed in flattened_fields by their
+    dotted paths: two paths with the same leaf give a duplicate parameter, which Python rejects at compile time."""
+    env = J.make_env()
+    src = J.template_source(env, SD + "_client_macros.j2")
+    leaf = "{% for field in method.flattened_fields.values() %}" in src and "{{ field.name }}: Optional[{{ field.ident }}] = None," in src
+    f2, h2 = find_def(W, "Method._fields_mapping")
+    s2 = ast.unparse(f2)
+    dedup = "name" in s2 and ("seen" in s2 or "duplicate" in s2.lower())
+    run.results.append(Result("import.params:flattened-parameter-names-are-distinct", "open" if (leaf and not dedup) else "discharged", "jinja-ast", 0, "structural",
+                              detail="parameters are named by field.name (the leaf) while Method._fields_mapping keys by the dotted signature entry and does not reject equal leaves",
+                              group="import.params:distinct-names"))
+
+
 def run(run: Run):
     run.witness_check = witness_still_fails
+    flattened_parameter_names(run)
     stage1(run)
     registry(run)
     typing_agreement(run)
